@@ -168,6 +168,15 @@ def generate(unit, repo=REPO):
                         raise AnchorLost("signature of %s changed: /%s/ not found" % (name, a))
                     sig = re.sub(a, b, sig)
             body = splice_loops(body, item.get("loops", []), name)
+            # ghost-only proof hints, inserted before the first body line matching a regex
+            for (rx, hint) in item.get("hints", []):
+                bl = body.split("\n")
+                hit = [k for k, l in enumerate(bl) if re.search(rx, l)]
+                if len(hit) != 1:
+                    raise AnchorLost("hint anchor /%s/ in %s: %d hits" % (rx, name, len(hit)))
+                ind = re.match(r"\s*", bl[hit[0]]).group(0)
+                bl[hit[0]:hit[0]] = [ind + h for h in hint.strip().split("\n")]
+                body = "\n".join(bl)
             spec = item.get("spec", "").strip()
             text = sig + ("\n    " + spec.replace("\n", "\n    ") if spec else "") + "\n" + body
             fns.append(name)
